@@ -33,7 +33,16 @@ func (it *interp) argTerms(args []ssa.Value) []*Term {
 }
 
 func (it *interp) event(name string, args []*Term, pos ssa.Instruction, res *Term) {
-	it.path.Events = append(it.path.Events, Event{Callee: name, Args: args, Pos: pos.Pos(), Result: res})
+	ev := Event{Callee: name, Args: args, Pos: pos.Pos(), Result: res, Block: it.curBlk}
+	if c, ok := pos.(*ssa.Call); ok {
+		cc := c.Common()
+		if !cc.IsInvoke() {
+			for _, a := range cc.Args {
+				ev.Addrs = append(ev.Addrs, addrOfVal(it.get(a)))
+			}
+		}
+	}
+	it.path.Events = append(it.path.Events, ev)
 }
 
 // writeVal overwrites what v designates with the term t.
@@ -348,7 +357,7 @@ func isReset(fn *ssa.Function) bool {
 }
 
 func singleBlockInlineable(fn *ssa.Function) bool {
-	if len(fn.Blocks) != 1 || len(fn.FreeVars) != 0 {
+	if len(fn.Blocks) != 1 {
 		return false
 	}
 	for _, in := range fn.Blocks[0].Instrs {
@@ -452,6 +461,18 @@ func (it *interp) inline(x *ssa.Call, fn *ssa.Function) val {
 	for i, p := range fn.Params {
 		sub.env[p] = it.get(c.Args[i])
 	}
+	if len(fn.FreeVars) > 0 {
+		cv, ok := it.get(c.Value).(clo)
+		if !ok || len(cv.binds) != len(fn.FreeVars) {
+			// resolve through the MakeClosure found by ResolveCallee
+			it.unrec("closure call with unresolved bindings")
+		} else {
+			for i, fv := range fn.FreeVars {
+				sub.env[fv] = cv.binds[i]
+			}
+		}
+	}
+	sub.curBlk, sub.lazy = it.curBlk, it.lazy
 	var ret val = tv{Leaf("void")}
 	for _, in := range fn.Blocks[0].Instrs {
 		switch r := in.(type) {
